@@ -3,13 +3,14 @@ from ..core.model import Program
 from ..core.report import CheckContext
 from ..core.resolve import Resolver
 from ..rules import api, simplify
-from .common import run_control
+from .common import run_control, generic_rules
 
 MODS = ["OpenPinch.utils.stream_linearisation"]
 
 
 def analyse(ctx: CheckContext, p: Program):
     r = Resolver(p)
+    generic_rules(ctx, p, r, "C17")
     simplify.check_cross_contract(ctx, p, r)
     fs = [f for f in p.all_funcs if f.module.name in ("OpenPinch.utils.stream_linearisation",) or
           (f.module.name == "OpenPinch.utils.miscellaneous" and f.name.startswith("clean_composite"))]
